@@ -322,7 +322,8 @@ class SymEx:
             for x, vs in res:
                 if x.exc is None:
                     x = x.ev(Ev('raise', exc=cname, site=self.site(s), fn=self.fn.qn, args=tuple(vs)))
-                    x.exc = ('raise', cname, self.site(s), self.fn.qn)
+                    owner = self.fn.cls.name if self.fn.cls is not None else (getattr(self, '_deco_owner', None) or [None])[-1]
+                    x.exc = ('raise', cname, self.site(s), self.fn.qn, owner)
                 out.append((x, None))
             return out
         if isinstance(s, ast.Assign):
@@ -621,6 +622,12 @@ class SymEx:
                     vals = [p.env.get(n) for p in normal]
                     if deltas and all(d is not None for d in deltas) and all(T.teq(d, deltas[0]) for d in deltas):
                         y.env[n] = T.t_add(x.env[n], ('sum', lid, deltas[0])) if not (deltas[0] == ZERO) else x.env[n]
+                    elif len(normal) == 2 and all(d is not None for d in deltas) and len(normal[0].conds) == 1 and len(normal[1].conds) == 1 \
+                            and normal[0].conds[0][0] == normal[1].conds[0][0] and normal[0].conds[0][1] != normal[1].conds[0][1]:
+                        # `if c: acc += a` (else `acc += b`): the per-element contribution is a conditional term
+                        c_ = normal[0].conds[0][0]
+                        dt_, df_ = (deltas[0], deltas[1]) if normal[0].conds[0][1] else (deltas[1], deltas[0])
+                        y.env[n] = T.t_add(x.env[n], ('sum', lid, ('ite', c_, dt_, df_)))
                     elif vals and all(v is not None and _rooted(v, ('lc', n, lid)) for v in vals):
                         cmp_ = self._accum_to_comp(lid, x.env[n], paths, n, it, is_for)
                         y.env[n] = cmp_ if cmp_ is not None else ('accum', lid, x.env[n], tuple(vals))
@@ -1396,6 +1403,12 @@ class SymEx:
                     continue
                 out.append((x, ('ext', T.API_CLASS.get(name, name))))
                 continue
+            if b[0] == 'var' and b[1].startswith('class:') and isinstance(e.ctx, ast.Load):
+                c_ = self.M.cls(b[1][6:])
+                m_ = c_.lookup(e.attr) if c_ is not None else None
+                if m_ is not None and not m_.is_property:
+                    out.append((x, ('fn', m_.qn)))          # Class.method used as a value
+                    continue
             if b[0] == 'new':
                 d = dict(b[2])
                 if e.attr in d:
@@ -1638,7 +1651,12 @@ class SymEx:
             used = set(pos_names[:len(pos)])
             kwargs = [(k, t) for k, t in bound.items() if isinstance(k, str) and not k.startswith('*') and k not in used]
             fake = ast.copy_location(ast.Call(func=ast.Name(id=callee.name, ctx=ast.Load()), args=[], keywords=[]), node if hasattr(node, 'lineno') else callee.node)
-            return self.call_value(fake, val, args + pos + rest, kwargs, st)
+            # a refusal raised by the wrapper is a refusal of the decorated method's class
+            self._deco_owner = getattr(self, '_deco_owner', []) + [callee.cls.name if callee.cls is not None else None]
+            try:
+                return self.call_value(fake, val, args + pos + rest, kwargs, st)
+            finally:
+                self._deco_owner = self._deco_owner[:-1]
         finally:
             self._raw = self._raw - {callee.qn}
 
